@@ -25,7 +25,7 @@ RULE = ('Hypothesis draws an INPUT recording that is written by an independent G
 ASSUMPTIONS = ['input headers carry the cards a GUPPI writer always emits (TELESCOP, OBSERVER, SRC_NAME, sizes)',
                "requantiser as built by from_data (statistics refreshed on every call); gain band [0.4,2.5] x median per antenna/pol (the final requantisation stage's per-sub-block deviation estimate scatters by ~25%; a decay by the digitiser deviation is 13.6x)",
                'exact model only for num_subblocks=1; rounding-tie window 1e-6']
-REQUIRED_CLASSES = ['bits=8', 'bits=4', 'pols=1', 'pols=2', 'ants>1', 'directio=1', 'directio=0', 'aligned', 'multi_file',
+REQUIRED_CLASSES = ['input_without_descriptive_cards', 'output_with_template', 'bits=8', 'bits=4', 'pols=1', 'pols=2', 'ants>1', 'directio=1', 'directio=0', 'aligned', 'multi_file',
                     'digitize', 'nodigitize', 'requested_longer', 'requested_shorter', 'exact_model', 'subblocks>=2', 'lazy_channelized_stds', 'per_pol_digitisers', 'record_after_aborted_record']
 
 
@@ -51,7 +51,9 @@ def strategy_(draw, tier):
                 fch1=draw(st.sampled_from([0.0, 6e9])), preseed=draw(st.sampled_from([True, True, True, False])),
                 dig_list=draw(st.booleans()), dig_fwhms=draw(st.lists(st.sampled_from([32.0, 20.0, 12.0, 48.0]), min_size=6, max_size=6)),
                 abort_first=draw(st.sampled_from([False, False, True])), abort_call=draw(st.integers(2, 4)),
-                earlier_use=draw(st.sampled_from([False, False, True])))
+                earlier_use=draw(st.sampled_from([False, False, True])),
+                omit_cards=draw(st.sampled_from([None, None, None, ['TELESCOP'], ['OBSERVER', 'SRC_NAME'], ['TELESCOP', 'OBSERVER', 'SRC_NAME', 'BACKEND']])),
+                template=draw(st.sampled_from([False, False, True])), user_cards=draw(st.sampled_from([False, False, False, True])))
 
 
 def strategy(tier):
@@ -74,6 +76,8 @@ def make_input(c, stem):
             'TBIN': tbin, 'CHAN_BW': chan_bw * 1e-6, 'OBSBW': chan_bw * c['num_chans'] * 1e-6,
             'OBSFREQ': (c['fch1'] + (c['start_chan'] + (c['num_chans'] - 1) / 2) * chan_bw) * 1e-6,
             'SCANLEN': c['nblocks_in'] * spb * tbin, 'PKTIDX': 0}
+    for k in c.get('omit_cards') or []:
+        base.pop(k, None)          # descriptive cards are optional in a RAW header
     if c['na'] > 1:
         base['NANTS'] = c['na']
     if c['directio'] != 'absent':
@@ -237,8 +241,15 @@ def run_case(case, ctx):
         aborted = False
     stem_out = ctx.path('out')
     hd = {}
+    if c.get('user_cards'):
+        hd.update({'TELESCOP': 'MYTEL', 'OBSERVER': 'me'})
+    tmpl = bool(c.get('template'))
+    if tmpl:
+        obs.cls('output_with_template')
+    if c.get('omit_cards'):
+        obs.cls('input_without_descriptive_cards')
     ok, _ = core.call(obs, 'record', lambda: be.record(output_file_stem=stem_out, num_blocks=req, length_mode='num_blocks',
-                                                       header_dict=hd, digitize=c['digitize'], load_template=False, verbose=False))
+                                                       header_dict=hd, digitize=c['digitize'], load_template=tmpl, verbose=False))
     if not ok:
         return obs
     for a in range(c['na']):
